@@ -109,6 +109,80 @@ fn verdict1(digits: &[u8], variant: u64) -> char {
     }
 }
 
+/// A glif with a first contour `a` (legal by construction), a separator (0 nothing, 1 a component,
+/// 2 an empty contour, 3 both) and the contour under test `b`. The builder must judge `b` exactly as
+/// it judges it alone: no state may leak from one contour to the next.
+fn doc2(a: &[u8], sep: u8, b: &[u8], variant: u64) -> String {
+    let one = |digits: &[u8], var: u64| -> String {
+        let d = doc(digits, var);
+        let i = d.find("<contour>").unwrap();
+        let j = d.find("</outline>").unwrap();
+        d[i..j].to_string()
+    };
+    let mut s = String::from(
+        "<?xml version=\"1.0\" encoding=\"UTF-8\"?>\n<glyph name=\"a\" format=\"2\">\n<outline>\n",
+    );
+    s.push_str(&one(a, 0));
+    if sep & 1 == 1 {
+        s.push_str("<component base=\"b\"/>\n");
+    }
+    if sep & 2 == 2 {
+        s.push_str("<contour>\n</contour>\n");
+    }
+    s.push_str(&one(b, variant));
+    s.push_str("</outline>\n</glyph>\n");
+    s
+}
+
+/// verdict of the second contour of a two-contour document (same digits as `verdict`)
+pub fn verdict2(a: &[u8], sep: u8, b: &[u8], variant: u64) -> char {
+    let d = doc2(a, sep, b, variant);
+    match catch(|| Glyph::parse_raw(d.as_bytes())) {
+        Err(_) => '9',
+        Ok(Err(e)) => {
+            let k = format!("{:?}", e);
+            if k.contains("UnexpectedMove") {
+                '1'
+            } else if k.contains("UnexpectedPointAfterOffCurve") {
+                '2'
+            } else if k.contains("UnexpectedSmooth") {
+                '3'
+            } else if k.contains("TooManyOffCurves") {
+                '4'
+            } else if k.contains("TrailingOffCurves") {
+                '5'
+            } else {
+                '8'
+            }
+        }
+        Ok(Ok(g)) => {
+            let want = (!a.is_empty()) as usize + (!b.is_empty()) as usize;
+            if g.contours.len() != want {
+                return '7';
+            }
+            if !b.is_empty() {
+                let c = &g.contours[want - 1];
+                if c.points.len() != b.len() {
+                    return '7';
+                }
+                for (p, d) in c.points.iter().zip(b) {
+                    let t = match p.typ {
+                        PointType::Move => 0,
+                        PointType::Line => 1,
+                        PointType::OffCurve => 2,
+                        PointType::Curve => 3,
+                        PointType::QCurve => 4,
+                    };
+                    if t != d / 2 || p.smooth != (d % 2 == 1) {
+                        return '7';
+                    }
+                }
+            }
+            '0'
+        }
+    }
+}
+
 /// a sequence that is legal with high probability: random walk over "what may come next"
 fn gen_mostly_legal(rng: &mut Rng, len: usize) -> Vec<u8> {
     let mut v = Vec::with_capacity(len);
@@ -148,7 +222,16 @@ pub fn main(a: &Args) {
     if let Some(p) = &a.replay {
         // replay file: first line = digit string
         let s = std::fs::read_to_string(p).expect("replay file");
-        let digits: Vec<u8> = s.trim().bytes().map(|b| b - b'0').collect();
+        let mut lines = s.lines();
+        let digits: Vec<u8> = lines.next().unwrap_or("").trim().bytes().map(|b| b - b'0').collect();
+        if let Some(l2) = lines.next() {
+            let mut it = l2.split_whitespace();
+            let first: Vec<u8> = it.next().unwrap_or("").bytes().map(|b| b - b'0').collect();
+            let sep: u8 = it.next().and_then(|x| x.parse().ok()).unwrap_or(0);
+            println!("{}", verdict2(&first, sep, &digits, 0));
+            println!("{}", verdict2(&first, sep, &digits, 12345));
+            return;
+        }
         println!("{}", verdict(&digits, 0));
         println!("{}", verdict(&digits, u64::MAX));
         return;
@@ -203,6 +286,51 @@ pub fn main(a: &Args) {
         cases.push('\n');
         exp.push(v);
     }
+    // two-contour documents: every sequence of length <= 3 (thorough: 4) as the SECOND contour after
+    // legal first contours that leave the builder in different internal states
+    let firsts: [&[u8]; 8] = [
+        &[4],             // closed, off-curves only
+        &[4, 4],
+        &[4, 4, 4],
+        &[4, 4, 4, 4, 4],
+        &[6, 4, 4],       // curve then two trailing off-curves wrapping around
+        &[8, 4, 4, 4],    // qcurve with three trailing off-curves
+        &[0, 2, 4, 4, 6], // open contour
+        &[2, 3],          // plain lines
+    ];
+    let mut contexts = String::new();
+    for _ in 0..nrand {
+        contexts.push('\n');
+    }
+    let blen = if a.thorough() { 4 } else { 3 };
+    let mut multi = 0u64;
+    for (fi, first) in firsts.iter().enumerate() {
+        for sep in 0..4u8 {
+            for n in 0..=blen {
+                let count = 10u64.pow(n as u32);
+                let mut digits = vec![0u8; n];
+                for idx in 0..count {
+                    let mut x = idx;
+                    for k in (0..n).rev() {
+                        digits[k] = (x % 10) as u8;
+                        x /= 10;
+                    }
+                    let v = verdict2(first, sep, &digits, rng.next());
+                    hist[v.to_digit(16).unwrap().min(9) as usize] += 1;
+                    for d in &digits {
+                        cases.push((b'0' + d) as char);
+                    }
+                    cases.push('\n');
+                    exp.push(v);
+                    let fs: String = first.iter().map(|d| (b'0' + d) as char).collect();
+                    contexts.push_str(&format!("after contour {} (#{}), separator {}\n", fs, fi, sep));
+                    multi += 1;
+                }
+            }
+        }
+    }
+    write_file(&a.out.join("rand_context.txt"), &contexts);
+    write_file(&a.out.join("multi_count.txt"), &multi.to_string());
     write_file(&a.out.join("rand_cases.txt"), &cases);
     write_file(&a.out.join("rand_expected.txt"), &exp);
     let summary = format!(
